@@ -540,6 +540,32 @@ pub fn c07_case(rng: &mut Rng, max_objects: usize) -> String {
         f.eq("mode_or_ignore(map) == Performance(converted)", &spec.apply(p).calculate().json(), &want);
         let p = Performance::new(start.clone()).difficulty(d.clone()).mode_or_ignore(tm);
         f.eq("mode_or_ignore(owned map) == Performance(converted)", &spec.apply(p).calculate().json(), &want);
+        // the score specification given BEFORE the mode switch is carried over: the setters every
+        // mode shares (accuracy, combo, misses, n300/n100/n50, tick counts, priority) commute with it
+        let mut common = spec.clone();
+        common.n_geki = None;
+        common.n_katu = None;
+        common.state = None;
+        let want_c = common
+            .apply(Performance::new(&explicit).difficulty(d.clone()))
+            .calculate()
+            .json();
+        let p = common.apply(Performance::new(&start).difficulty(d.clone())).mode_or_ignore(tm);
+        f.eq("score setters before mode_or_ignore == after the conversion", &p.calculate().json(), &want_c);
+        if let Ok(p) = common.apply(Performance::new(&start).difficulty(d.clone())).try_mode(tm) {
+            f.eq("score setters before try_mode == after the conversion", &p.calculate().json(), &want_c);
+        }
+        // the conversion happens at the mode switch, with the mods of that moment: changing the mods
+        // afterwards does not convert again, whether the map was borrowed or owned
+        let m2 = *rng.pick(&crate::settings::KEYS) | *rng.pick(&[0u32, 64, 16]);
+        let want_m = common
+            .apply(Performance::new(&explicit).difficulty(d.clone()).mods(m2))
+            .calculate()
+            .json();
+        let p = common.apply(Performance::new(&start).difficulty(d.clone()).mode_or_ignore(tm).mods(m2));
+        f.eq("mods changed after mode_or_ignore (borrowed map) == Performance(converted).mods", &p.calculate().json(), &want_m);
+        let p = common.apply(Performance::new(start.clone()).difficulty(d.clone()).mode_or_ignore(tm).mods(m2));
+        f.eq("mods changed after mode_or_ignore (owned map) == Performance(converted).mods", &p.calculate().json(), &want_m);
     })
 }
 
@@ -936,6 +962,24 @@ pub fn c18_case(rng: &mut Rng, max_objects: usize) -> String {
             &all_results(&back, &c.conv, &spec),
             &all_results(&d, &c.conv, &spec),
         );
+        // 2b. InspectDifficulty has public fields: whatever a caller writes there goes through the
+        // same clamps when it is turned back into a Difficulty
+        {
+            let mut raw = d.clone().inspect();
+            let rc = gen_clock(rng);
+            let rv = gen_attr_value(rng);
+            raw.clock_rate = Some(if rng.chance(1, 4) { 0.0 } else { rc });
+            raw.ar = Some(rosu_pp::any::ModsDependent { value: rv * 3.0, with_mods: rng.chance(1, 2) });
+            raw.od = Some(rosu_pp::any::ModsDependent { value: -rv * 3.0, with_mods: rng.chance(1, 2) });
+            let want_rate = raw.clock_rate.map(|c| c.clamp(0.01, 100.0));
+            let (want_ar, want_od) = (raw.ar.map(|m| m.value.clamp(-20.0, 20.0)), raw.od.map(|m| m.value.clamp(-20.0, 20.0)));
+            let shown = raw.into_difficulty().inspect();
+            f.holds("hand-written InspectDifficulty::clock_rate is clamped by into_difficulty",
+                    shown.clock_rate == want_rate || want_rate.is_some_and(f64::is_nan), &format!("{:?} vs {:?}", shown.clock_rate, want_rate));
+            f.holds("hand-written InspectDifficulty::ar / od are clamped by into_difficulty",
+                    shown.ar.map(|m| m.value) == want_ar && shown.od.map(|m| m.value) == want_od,
+                    &format!("{:?} {:?} vs {:?} {:?}", shown.ar, shown.od, want_ar, want_od));
+        }
         // 3. clamps
         let ins = d.clone().inspect();
         if let Some(cr) = ins.clock_rate {
